@@ -497,6 +497,48 @@ func disposeLatchShape() (found, atomicLatch bool) {
 	return true, it > il && (ifast < 0 || ifast > il)
 }
 
+// round 8: RegisterTunnel refuses while any entry exists under the id (no CompareAndSwap replacement); the OnClosed closure
+// that handleConnection gives its tunnels does not call IsClosed() / Close() of the handler
+func registerTunnelShape() (found, refusesExisting bool) {
+	fset := token.NewFileSet()
+	f, err := parser.ParseFile(fset, filepath.Join(repoRoot(), "internal/client/tunnel/manager.go"), nil, 0)
+	if err != nil {
+		return
+	}
+	fd := findMethod(f, "DefaultTunnelManager", "RegisterTunnel")
+	if fd == nil {
+		return
+	}
+	txt := strings.ReplaceAll(nodeText(fset, fd.Body), " ", "")
+	return strings.Contains(txt, "LoadOrStore("), !strings.Contains(txt, "CompareAndSwap(") && !strings.Contains(txt, ".Store(")
+}
+
+func mappingOnClosedShape() (found, takesDisposeLock bool) {
+	fset := token.NewFileSet()
+	f, err := parser.ParseFile(fset, filepath.Join(repoRoot(), "internal/client/mapping/base.go"), nil, 0)
+	if err != nil {
+		return
+	}
+	ast.Inspect(f, func(n ast.Node) bool {
+		kv, ok := n.(*ast.KeyValueExpr)
+		if !ok {
+			return true
+		}
+		if id, ok := kv.Key.(*ast.Ident); !ok || id.Name != "OnClosed" {
+			return true
+		}
+		if fl, ok := kv.Value.(*ast.FuncLit); ok {
+			found = true
+			txt := strings.ReplaceAll(nodeText(fset, fl.Body), " ", "")
+			if strings.Contains(txt, "h.IsClosed()") || strings.Contains(txt, "h.Close()") || strings.Contains(txt, "h.Stop()") || strings.Contains(txt, "h.GetErrors()") {
+				takesDisposeLock = true
+			}
+		}
+		return true
+	})
+	return
+}
+
 func coqBool(b bool) string {
 	if b {
 		return "true"
@@ -561,6 +603,12 @@ func gen() {
 	dlf, dla := disposeLatchShape()
 	fmt.Println("(* Dispose.Close tests and sets `closed` inside one critical section *)")
 	fmt.Printf("Definition DisposeLatchShapeFound : bool := %s.\nDefinition DisposeLatchAtomic : bool := %s.\n", coqBool(dlf), coqBool(dla))
+	rtf, rtr := registerTunnelShape()
+	fmt.Println("(* DefaultTunnelManager.RegisterTunnel refuses while any entry exists under the id *)")
+	fmt.Printf("Definition RegisterTunnelShapeFound : bool := %s.\nDefinition RegisterTunnelRefusesExisting : bool := %s.\n", coqBool(rtf), coqBool(rtr))
+	mof, mol := mappingOnClosedShape()
+	fmt.Println("(* the OnClosed closure of handleConnection takes the handler's own Dispose lock *)")
+	fmt.Printf("Definition MappingOnClosedFound : bool := %s.\nDefinition MappingOnClosedTakesDisposeLock : bool := %s.\n", coqBool(mof), coqBool(mol))
 	fmt.Printf("Definition BatchUpdateThreshold : N := %d%%N.\n", int64(constants.BatchUpdateThreshold))
 }
 
